@@ -764,8 +764,19 @@ def fcodec_lattice(tier):
     return out
 
 
+def _extra_task(x):
+    if x[0] == "S2":
+        from . import s2merge
+
+        return {"obligations": s2merge.verify_merge(x[1]), "trusted": ["S2 loop rule: the two `for key, value in X.items()` loops of Dialect.merge are pointwise map loops (checked syntactically), analysed at one symbolic key"]}
+    return fcodec_task(x)
+
+
 def _extra_codecs(pid, tier):
-    res = runner.run_pool(fcodec_task, [(pid,) + x for x in fcodec_lattice(tier)], chunks=2)
+    tasks = [(pid,) + x for x in fcodec_lattice(tier)]
+    if pid == "C13":
+        tasks = [("S2", pid)] + tasks
+    res = runner.run_pool(_extra_task, tasks, chunks=2)
     obs = []
     for r in res:
         if "crash" in r:
